@@ -39,6 +39,10 @@ pub struct PresentCall {
     pub key: Option<String>,
     #[serde(default)]
     pub alg: Option<String>,
+    /// the wall clock is stepped by this many seconds before the call (NTP step, VM resume;
+    /// negative = backwards)
+    #[serde(default)]
+    pub clock_step: i64,
 }
 
 #[derive(Clone, Debug, Serialize, Deserialize, PartialEq)]
@@ -103,7 +107,17 @@ fn big_issue_call(rng: &mut Rng, now: i64) -> IssueCall {
     let mut claims = Map::new();
     claims.insert("iss".into(), json!("https://issuer-a.example"));
     claims.insert("exp".into(), json!(now + 7200));
-    match rng.usize(3) {
+    match rng.usize(4) {
+        3 => {
+            // a value nested deeper than any recursion bound one might think of
+            let depth = *rng.pick(&[140usize, 600, 1100]);
+            let mut v = json!("leaf");
+            for i in 0..depth {
+                v = if i % 2 == 0 { json!({ "d": v }) } else { json!([v]) };
+            }
+            claims.insert("deep".into(), v);
+            return IssueCall { claims: Value::Object(claims), strat: if rng.bool() { Strat::Top } else { Strat::None }, holder_key: None, decoys: false, fmt: rand_fmt(rng) };
+        }
         0 => {
             claims.insert("records".into(), Value::Array((0..n).map(|i| json!(format!("r{}", i))).collect()));
         }
@@ -181,8 +195,8 @@ pub fn gen_c11(rng: &mut Rng, tier: Tier) -> Result<Value, serde_json::Error> {
                 _ => None,
             };
             let mut call = match kb {
-                Some((aud, nonce, k, a)) => PresentCall { selection: selection.clone(), nonce: Some(nonce), aud: Some(aud), key: Some(k), alg: a },
-                None => PresentCall { selection: selection.clone(), nonce: None, aud: None, key: None, alg: None },
+                Some((aud, nonce, k, a)) => PresentCall { selection: selection.clone(), nonce: Some(nonce), aud: Some(aud), key: Some(k), alg: a, clock_step: 0 },
+                None => PresentCall { selection: selection.clone(), nonce: None, aud: None, key: None, alg: None, clock_step: 0 },
             };
             // failing calls: inconsistent KB arguments, unknown alg, a claim that does not exist
             // (selectors known to *panic* today are C07's and are not generated here)
@@ -203,6 +217,14 @@ pub fn gen_c11(rng: &mut Rng, tier: Tier) -> Result<Value, serde_json::Error> {
                     call.selection = selection;
                 }
                 _ => {}
+            }
+            if rng.chance(1, 4) {
+                call.clock_step = match rng.usize(4) {
+                    0 => -(1 + rng.below(3600) as i64),
+                    1 => -(1 + rng.below(10) as i64),
+                    2 => 1 + rng.below(86400) as i64,
+                    _ => -(86400 * (1 + rng.below(400) as i64)),
+                };
             }
             // a retry of the previous request: identical, or identical except for key / algorithm
             if let Some(prev) = calls.last().cloned() {
@@ -480,6 +502,10 @@ fn exec_holder(scn: &HistHolderScn) -> RunReport {
         if !scn.same_thread {
             w.rt.restart_node(node);
         }
+        if call.clock_step != 0 {
+            seams::set_clock_s((seams::clock_s() + call.clock_step).max(1_000_000_000));
+            cx.rep.count(if call.clock_step < 0 { "fault.jump_back" } else { "fault.jump_forward" });
+        }
         let s = seams::entropy_state();
         let out_reused = w.present_raw(node, &reused, &call.selection, call.nonce.clone(), call.aud.clone(), call.key.clone(), call.alg.clone());
         let after = seams::entropy_state();
@@ -666,7 +692,9 @@ pub fn gen_c15(rng: &mut Rng, _tier: Tier) -> Result<Value, serde_json::Error> {
     // machine-word bitmap or small table
     let long_list = rng.chance(1, 12);
     if long_list {
-        let n = *rng.pick(&[33usize, 65, 70, 129, 200]);
+        // rarely thousands (batch / chunked processing); lists beyond 2^16 elements take the unchanged
+        // holder minutes per selection (quadratic walk) and are out of this check's time budget
+        let n = if rng.chance(1, 12) { *rng.pick(&[4099usize, 4101, 5003, 8191]) } else { *rng.pick(&[33usize, 65, 70, 129, 200]) };
         if let Some(o) = claims.as_object_mut() {
             o.insert("records".into(), Value::Array((0..n).map(|i| if rng.chance(1, 8) { json!({"id": i}) } else { json!(i) }).collect()));
         }
